@@ -54,6 +54,10 @@ package rtmr
 //@   assigns opts.Verification.chain, opts.Verification.collateral, opts.Verification.pckCertExtensions, opts.Verification.Now
 //@   ensures[gates] r != nil ==> verify_tdxquote[0].happened && after(verify_tdxquote[0], err == nil)
 //@ |       && validate_tdxquote[0].happened && after(validate_tdxquote[0], err == nil)
+// what the two gates stand for: a log is returned only for a quote that is
+// authentic under the verification options and meets the validation policy
+//@   ensures[authentic] r != nil ==> typeis(tdxAttestationQuote, "*tdx.QuoteV4") && opts.Verification != nil && verdictOK(as(tdxAttestationQuote, "*tdx.QuoteV4"), opts.Verification)
+//@   ensures[meets-policy] r != nil ==> typeis(tdxAttestationQuote, "*tdx.QuoteV4") && opts.Validation != nil && policyOK(as(tdxAttestationQuote, "*tdx.QuoteV4"), opts.Validation)
 //@   ensures[order] (validate_tdxquote[0].happened ==> after(verify_tdxquote[0], err == nil))
 //@ |       && (replay[0].happened ==> after(verify_tdxquote[0], err == nil) && after(validate_tdxquote[0], err == nil))
 //@   ensures[same-quote] (verify_tdxquote[0].happened ==> before(verify_tdxquote[0], quote == tdxAttestationQuote && options == outer_opts.Verification))
